@@ -737,7 +737,7 @@ fn main() {
     };
     let merging = tiers("merging", "2:3", "2:2:5,2:3:4,3:3:3");
     let concat = tiers("concat", "2:3", "2:2:5,2:3:4,3:3:3");
-    let bounds_t = tiers("bounds", "3:3", "3:5,4:4");
+    let bounds_t = tiers("bounds", "3:3", "2:5,3:4,4:3");
     let pruning = tiers("pruning", "4:3", "4:5,5:4");
     let lazy = tiers("lazy", "3:3", "3:5,4:4");
     let biggest = [&merging, &concat, &bounds_t, &pruning, &lazy]
@@ -754,7 +754,7 @@ fn main() {
         bounds_t,
         pruning,
         lazy,
-        reversed_len: args.usize("reversed-len", if thorough { 3 } else { 2 }),
+        reversed_len: args.usize("reversed-len", 2),
     };
     let only: Option<Vec<String>> = args
         .get("only")
